@@ -1347,8 +1347,13 @@ def _seq_case(ctx, name, v, g, spec, rng, gam=None):
             fake = _FakeMin(rng)
             orig = mod.minimize
             mod.minimize = fake
+            # solve(x=, disregistry=) with any subset of the two once a profile is stored
+            smode = rng.choice(MODES) if stored is not None else 'both'
+            akw, x, d = mode_args(smode, np.asarray(x, dtype=float), np.asarray(d, dtype=float), stored)
+            x, d = np.array(x, dtype=float), np.array(d, dtype=float)
+            op['args'] = smode
             try:
-                r = call(pn.solve, x=x, disregistry=d.copy(), **kw)
+                r = call(pn.solve, **{k_: np.array(v_).copy() for k_, v_ in akw.items()}, **kw)
             finally:
                 mod.minimize = orig
             st.update(op['kw'])
@@ -1356,11 +1361,12 @@ def _seq_case(ctx, name, v, g, spec, rng, gam=None):
                 ctx.disagree('obj:solve', f'solve({sorted(op["kw"])}) with a stub minimiser: {r}', dict(rep, step=step))
                 return
             opt = lambda a: ('1 ' + _val_wire(a, op['kw'][a])) if a in op['kw'] else '0'   # noqa: E731
-            line = (f'osolve 1 {len(x)} {cm.frs(x)} 1 {len(x)} {cm.frs(d)} ' + ' '.join(opt(a) for a in
+            line = ('osolve ' + (f'1 {len(x)} {cm.frs(x)} ' if 'x' in akw else '0 ') + (f'1 {len(x)} {cm.frs(d)} ' if 'disregistry' in akw else '0 ')
+                    + ' '.join(opt(a) for a in
                     ('tau', 'alpha', 'beta', 'cutofflongrange') + FLAGS) + f' {len(fake.out)} ' + cm.frs(fake.out))
             out = ctx.driver.ask(line)
             got = np.asarray(pn.disregistry)
-            ctx.stats.case('obj:solve', (name, line[:600]), sample={'op': 'solve(**kwargs), stub minimiser', 'kwargs': sorted(op['kw'])})
+            ctx.stats.case('obj:solve', (name, line[:600]), sample={'op': 'solve(**kwargs), stub minimiser', 'kwargs': sorted(op['kw']) + sorted(akw)})
             if out.startswith('err:') or [F(float(t)) for t in got.ravel()] != cm.unfrs(out):
                 ctx.disagree('obj:solve', 'disregistry stored by solve(**kwargs) differs from the model object',
                              dict(rep, step=step, got=got.tolist()))
@@ -2136,7 +2142,9 @@ def _apply_op(np, mod, pn, op, st, v, g, x, d, stored):
         kw = {a: (np.array(val) if a in ('tau', 'beta') else val) for a, val in op['kw'].items()}
         if op.get('x') is not None:
             x, d = np.array(op['x']), np.array(op['d'])
-        r = call(pn.solve, x=x, disregistry=np.array(d).copy(), min_method=op.get('method', 'Nelder-Mead'),
+        akw, x, d = mode_args(op.get('args', 'both') if stored is not None else 'both', np.asarray(x, dtype=float), np.asarray(d, dtype=float), stored)
+        x, d = np.array(x, dtype=float), np.array(d, dtype=float)
+        r = call(pn.solve, **{k_: np.array(v_).copy() for k_, v_ in akw.items()}, min_method=op.get('method', 'Nelder-Mead'),
                  min_options=dict(op.get('options', {'maxfev': 10})), **kw)
         st.update(op['kw'])
         if isinstance(r, Raised):
@@ -2144,6 +2152,9 @@ def _apply_op(np, mod, pn, op, st, v, g, x, d, stored):
         got = call(lambda: np.asarray(pn.disregistry, dtype=float).copy())
         if isinstance(got, Raised) or got.shape != np.shape(d):
             return Raised(ValueError(f'disregistry after solve: {got if isinstance(got, Raised) else got.shape}')), x, d, stored
+        if not (np.array_equal(got[0], d[0]) and np.array_equal(got[-1], d[-1])):
+            return Raised(ValueError(f'solve({", ".join(k_ + "=" for k_ in akw)}) moved an end disregistry of the guess it was to start from: '
+                                     f'{d[0].tolist()} -> {got[0].tolist()}, {d[-1].tolist()} -> {got[-1].tolist()}')), x, d, stored
         return None, np.array(x, dtype=float), got, (np.array(x, dtype=float), got.copy())
     if op['kind'] == 'profile':
         # no edit of the object: the next evaluation uses another profile with the SAME number of points and a
@@ -2213,7 +2224,7 @@ def chk_sdvpn(ctx, case):
                                    f'{"central" if cd else "neighbour"} difference quotient: {w}')
     stored = None
     for k, op in enumerate(case.get('ops', [])):
-        when = f'after step {k + 1} of {[o["kind"] + (":" + o["attr"] if o["kind"] == "set" else ":" + ",".join(sorted(o["kw"])) if o["kind"] == "solve" else ":" + o["which"] if o["kind"] == "store" else ":" + o["form"] + "," + "/".join(o.get("units", [])) if o["kind"] == "load" else "") for o in case["ops"][:k + 1]]} on one object'
+        when = f'after step {k + 1} of {[o["kind"] + (":" + o["attr"] if o["kind"] == "set" else ":" + ",".join(sorted(o["kw"]) + (["args given: " + o["args"]] if o.get("args", "both") != "both" else [])) if o["kind"] == "solve" else ":" + o["which"] if o["kind"] == "store" else ":" + o["form"] + "," + "/".join(o.get("units", [])) if o["kind"] == "load" else "") for o in case["ops"][:k + 1]]} on one object'
         r, x, d, stored = _apply_op(np, mod, pn, op, st, v, g, x, d, stored)
         given = stored is None
         if r is not None:
@@ -2483,6 +2494,11 @@ def gen_search_ops(rng, st, pn, x):
             op.pop('newprofile')
             if rng.random() < 0.5:
                 op['x'], op['d'] = _profile_json(rng, pn)
+            if stored_n is not None:
+                op['args'] = rng.choice(MODES)
+                if op['args'] != 'both':
+                    cur_n = stored_n          # the guess comes (partly) from the stored profile
+                    op.pop('x', None), op.pop('d', None)
             stored_n = cur_n = len(op['x']) if op.get('x') is not None else cur_n
             op['method'] = 'Nelder-Mead'      # a few simplex steps next to the start point, whatever the settings
             op['options'] = {'maxfev': rng.choice([5, 20])}
